@@ -275,6 +275,7 @@ func cmdCheck(prop, tier string) int {
 	var samples []any
 	usedAxioms := map[string]bool{}
 	var knownLines []string
+	nReplays := 0
 	for _, o := range obls {
 		ok := obligationOK(o)
 		solverTime += o.Res.Seconds
@@ -316,6 +317,18 @@ func cmdCheck(prop, tier string) int {
 					content["model_cap"] = cap
 					content["model"] = truncate(r.Output, 20000)
 					break
+				}
+			}
+		}
+		if o.Replay != nil && o.Res.Status != "error" && !o.ExpectSat && nReplays < 6 {
+			nReplays++
+			if extra, confirmed := tryReplay(p, o); extra != nil {
+				for k, v := range extra {
+					content[k] = v
+				}
+				if confirmed {
+					noInput = false
+					content["confirmed_on_real_code"] = true
 				}
 			}
 		}
